@@ -195,6 +195,9 @@ type memConn struct {
 	readLimit   int // max bytes per client Read (0 = a whole segment)
 	readWaiters int // client Reads currently blocked
 
+	closeGate    chan struct{} // non-nil: Close blocks on it after taking effect
+	closeWaiting bool
+
 	srvBytes, cliRead int // bytes written by the server / handed to the client
 	cliWrites         int
 	onCliClose        func(c *memConn)
@@ -292,7 +295,45 @@ func (c *memConn) Close() error {
 	if !was && cb != nil {
 		cb(c)
 	}
+	// a slow Close: the connection is closed (marked above), the caller is held until the harness lets it go on
+	c.mu.Lock()
+	g := c.closeGate
+	if !was && g != nil {
+		c.closeWaiting = true
+	}
+	c.mu.Unlock()
+	if !was && g != nil {
+		<-g
+		c.mu.Lock()
+		c.closeWaiting = false
+		c.mu.Unlock()
+	}
 	return nil
+}
+
+// holdClose makes the next Close of this connection block (after it took effect) until releaseClose.
+func (c *memConn) holdClose() {
+	c.mu.Lock()
+	if c.closeGate == nil && !c.cliClosed {
+		c.closeGate = make(chan struct{})
+	}
+	c.mu.Unlock()
+}
+
+func (c *memConn) closeBlocked() bool {
+	c.mu.Lock()
+	defer c.mu.Unlock()
+	return c.closeWaiting
+}
+
+func (c *memConn) releaseClose() {
+	c.mu.Lock()
+	g := c.closeGate
+	c.closeGate = nil
+	c.mu.Unlock()
+	if g != nil {
+		close(g)
+	}
 }
 
 func (c *memConn) isClosed() bool {
